@@ -195,7 +195,7 @@ T5 = [
  ("r5-c12-1", "C12", "add_child_node reads the slot with children.get(label)", "a label outside 0..K: the node is inserted before the write panics", ["C12"], "strengthening prepared from the summary: out-of-range labels for add / remove / merge on every state (may fail or panic, must not change the tree)"),
  ("r5-c12-2", "C12", "add_root frees the old root's slot first", "add_root on a tree whose root has children", ["C12"], "strengthening prepared from the summary: add_root on every state (fresh index, former tree untouched)"),
  ("r5-c13-1", "C13", "DfsPre::new starts with last_push = 1 (as r3-c09-2, node traversal only)", "skip_subtree before the first next()", ["C13", "C09"], ""),
- ("r5-c13-2", "C13", "num_nodes(root) returns len()", "a tree re-rooted with add_root (the former tree stays in the arena, unreachable)", [], "not reported: re-rooted trees are outside the enumerated shapes. C12 names add_root as the documented exception to reachability; on such a tree the unchanged library's own size_hint lower bound (len()) already exceeds the number of reachable nodes, so the traversal clauses of C13 cannot be meant for them"),
+ ("r5-c13-2", "C13", "num_nodes(root) returns len()", "a tree re-rooted with add_root (the former tree stays in the arena, unreachable)", ["C13"], "missed at first: re-rooted trees were outside the enumerated shapes (on them the unchanged library's own size_hint lower bound, len(), exceeds the number of reachable nodes, so the size_hint and whole-arena clauses cannot be meant for them). A re-rooted stage now applies the clauses that only speak about a node's subtree - the three traversals from every start node, num_nodes(i), path_to_node(i) - to every explored state after add_root"),
  ("r5-c14-1", "C14", "contains uses max(1e-8, A::epsilon()) as tolerance", "the f32 instantiation of the generic polytope type", ["C14"], "strengthening prepared from the summary: a single-precision stage for contains / hypercube on axis-parallel rows (where f32 arithmetic is exact)"),
  ("r5-c14-2", "C14", "hypercube uses radius.abs()", "a negative radius (the empty set)", ["C14"], "strengthening prepared from the summary: negative radii"),
  ("r5-c15-1", "C15", "remove_duplicate_rows classifies rows with the f64 epsilon whatever the element type", "the f32 instantiation and rows with norm in (2.2e-16, 1.19e-7]", ["C15"], "strengthening prepared from the summary: a single-precision stage for the clean-up functions"),
